@@ -181,9 +181,22 @@ def feature(sp, pp=None):
             f"mass-based={int(massy(sp['cu']) or massy(sp['qu']) or massy(sp['tu']))}")
 
 
+def prelude(pp, subs):
+    """Call history must not matter: another lot of the enzyme (same name, other specific activity) is dissolved first,
+    with mass-, volume- and activity-based constraints."""
+    twin = pp.Substance.enzyme('lipase', '3 U/mg')
+    for kw in ({'quantity': '5 mg', 'total_quantity': '10 g'}, {'concentration': '2 U/mL', 'total_quantity': '5 mL'},
+               {'concentration': '0.5 mg/g', 'quantity': '20 U'}):
+        try:
+            pp.Container.create_solution(twin, subs['water'], 'twin', **kw)
+        except ValueError:
+            pass
+
+
 def run_spec(sp):
     pp, vidx = _G['pp'], _G['vidx']
     subs = e1.substances(pp, vidx)
+    prelude(pp, subs)
     built = build_spec(pp, subs, sp)
     if built is None:
         return [], ('skip',)
